@@ -92,14 +92,38 @@ Section P13.
     rewrite (firstn_app_exact _ (rev r') _ eq_refl). exact Hout.
   Qed.
 
-  (* an inner plaintext consisting only of zero bytes (all padding, no content type) is rejected;
-     the value left in *outlen is (size_t)-1: DESIGN section 5 #21 *)
+  (* an inner plaintext consisting only of zero bytes (all padding, no content type) is rejected
+     cleanly: error return, 0 left in *outlen *)
   Theorem gcm13_decrypt_all_padding iv seq inp n : 16 <= length inp ->
     open (nonce13 iv seq) (aad13 (length inp))
          (firstn (length inp - 16) inp) (skipn (length inp - 16) inp) = Some (zeros n) ->
-    tls13_gcm_decrypt open iv seq inp = Dec13Err (Some size_max).
+    tls13_gcm_decrypt open iv seq inp = Dec13Err (Some 0%N).
   Proof.
     intros Hl Ho. unfold tls13_gcm_decrypt.
+    replace (length inp <? 16) with false by (symmetry; apply Nat.ltb_ge; assumption).
+    rewrite Ho, rev_zeros, scan_rev_all_zero. reflexivity.
+  Qed.
+
+  (* whatever the input, a failing call leaves *outlen untouched or 0: nothing larger than the
+     ciphertext can reach conn->datalen *)
+  Theorem gcm13_decrypt_err_outlen iv seq inp v :
+    tls13_gcm_decrypt open iv seq inp = Dec13Err (Some v) -> v = 0%N.
+  Proof.
+    unfold tls13_gcm_decrypt.
+    destruct (length inp <? 16); [discriminate|].
+    destruct (open _ _ _ _) as [out|]; [|discriminate].
+    destruct (scan_rev (rev out)) as [t [k|]].
+    - destruct (record_type_known t); [discriminate|]. intros [= <-]. reflexivity.
+    - intros [= <-]. reflexivity.
+  Qed.
+
+  (* the behaviour before commit 196ee26, for the record *)
+  Example gcm13_decrypt_all_padding_before_fix iv seq inp n : 16 <= length inp ->
+    open (nonce13 iv seq) (aad13 (length inp))
+         (firstn (length inp - 16) inp) (skipn (length inp - 16) inp) = Some (zeros n) ->
+    tls13_gcm_decrypt_before_196ee26 open iv seq inp = Dec13Err (Some size_max).
+  Proof.
+    intros Hl Ho. unfold tls13_gcm_decrypt_before_196ee26.
     replace (length inp <? 16) with false by (symmetry; apply Nat.ltb_ge; assumption).
     rewrite Ho, rev_zeros, scan_rev_all_zero. reflexivity.
   Qed.
